@@ -39,7 +39,7 @@ def pairsOf : List Float → List (Float × Float)
   | a :: b :: l => (a, b) :: pairsOf l
   | _ => []
 
-def fmtStats (r : Option (Stats Float)) : String :=
+def fmtStats (r : Option (StatsB Float)) : String :=
   match r with
   | some s => "ok " ++ fmtAll [s.rmse, s.mae, s.std]
   | none => "nan"
@@ -54,13 +54,13 @@ def opStats (args : List String) : String :=
     | some n, some l =>
       let res := pairsOf (l.take (2 * n))
       if wm = "none" then
-        if l.length ≠ 2 * n then "bad-op" else fmtStats (computeStat res (combineW none none))
+        if l.length ≠ 2 * n then "bad-op" else fmtStats (computeStatB res (combineW none none))
       else if wm = "w" then
         if l.length ≠ 3 * n then "bad-op"
-        else fmtStats (computeStat res (combineW (some (l.drop (2 * n))) none))
+        else fmtStats (computeStatB res (combineW (some (l.drop (2 * n))) none))
       else if wm = "ww" then
         if l.length ≠ 4 * n then "bad-op"
-        else fmtStats (computeStat res
+        else fmtStats (computeStatB res
           (combineW (some ((l.drop (2 * n)).take n)) (some (l.drop (3 * n)))))
       else "bad-op"
     | _, _ => "bad-op"
